@@ -138,6 +138,23 @@ def expandValue : SStr → List Char → SStr
   | .lit c :: r, acc => expandValue r (c :: acc)
   | p :: r, acc => expandRun acc.reverse ++ p :: expandValue r []
 
+/-- the text of scanned parts (`str()` of the pattern after `insert_placeholders`) -/
+def renderRun : SStr → List Char
+  | [] => []
+  | .lit c :: r => c :: renderRun r
+  | .ph n :: r => '%' :: n ++ '%' :: renderRun r
+  | .star :: r => '*' :: renderRun r
+  | .qm :: r => '?' :: renderRun r
+
+/-- `expand` on a regular expression: its pattern is kept as a string value read WITHOUT escape processing (`*` and
+`?` are wildcard parts, every other character - backslashes included - is literal); each literal run is scanned
+like a string's, the result is the pattern's new text -/
+def expandRe : List Char → List Char → List Char
+  | [], acc => renderRun (expandRun acc.reverse)
+  | c :: r, acc =>
+    if c == '*' || c == '?' then renderRun (expandRun acc.reverse) ++ c :: expandRe r []
+    else expandRe r (c :: acc)
+
 /-! ## the modifier table -/
 
 def typeName : Val → String
@@ -247,7 +264,7 @@ def modifyValue (env : Env) (hasField first : Bool) (m : String) (v : Val) : Exc
   | "expand" =>
     match v with
     | .str c s => .ok [.str c (expandValue s [])]
-    | .re .. => .ok [v]          -- placeholders inside regular expressions: not modelled further
+    | .re src a b d => .ok [.re (expandRe src []) a b d]     -- the pattern's text after the scan (its validity as a regular expression is assumed)
     | _ => tyErr
   | "minute" | "hour" | "day" | "week" | "month" | "year" =>
     match v with
